@@ -33,6 +33,38 @@ def run_scan_unit(u, repo, bdir):
             res["obligations"].append({"name": f"{u['id']}::implementors_of_{u['trait']}_all_under_contract", "contract": False,
                                        "status": "discharged", "ms": 0.0,
                                        "note": f"{len(u['expected'])} under contract, {len(u.get('ignored', {}))} ignored with reason"})
+    elif u["kind"] == "lock-discipline":
+        # C11.9: the private field is only touched (a) by `let mut cache = self.cache.lock().unwrap();` as the FIRST
+        # statement of the dispatcher (guard alive to the end of the function), (b) inside Clone, (c) where the State is
+        # built; no `unsafe` in the state module.  Given A6 (Mutex) every concurrent execution is then equivalent to a
+        # sequential order of whole requests, over which the history lemma quantifies.
+        sdir = os.path.join(repo, u["dir"])
+        uses, unsafe = [], []
+        for p in walk_rs(sdir):
+            rel = os.path.relpath(p, repo)
+            txt = open(p, encoding="utf-8", errors="replace").read()
+            for i, l in enumerate(txt.split("\n"), 1):
+                code = l.split("//")[0]
+                if re.search(r"\bunsafe\b", code):
+                    unsafe.append(f"{rel}:{i}")
+                if rel.endswith("cache.rs"):
+                    continue
+                if re.search(r"\." + u["field"] + r"\b", code):
+                    uses.append((rel, i, code.strip()))
+        allowed = [re.compile(x) for x in u["allowed"]]
+        bad = [f"{r}:{i}: {c}" for (r, i, c) in uses if not any(a.search(c) for a in allowed)]
+        # the lock statement is the first statement of the dispatcher
+        disp = open(os.path.join(repo, u["dispatcher_file"]), encoding="utf-8").read()
+        m = re.search(r"fn\s+" + u["dispatcher"] + r"\s*\([^)]*\)\s*->\s*f64\s*\{\s*(.*?);", disp, re.S)
+        first_ok = bool(m) and re.fullmatch(r"let\s+mut\s+cache\s*=\s*self\." + u["field"] + r"\.lock\(\)\.unwrap\(\)", m.group(1).strip()) is not None
+        n_lock = sum(1 for (_, _, c) in uses if ".lock()" in c)
+        if unsafe or bad or not first_ok or n_lock != 2:
+            res["reason"] = f"lock discipline changed: unsafe={unsafe} other-uses={bad} lock-first-statement={first_ok} lock-sites={n_lock} (expected 2)"
+        else:
+            res["status"] = "proved"
+            res["obligations"].append({"name": f"{u['id']}::cache_field_only_used_under_lock", "contract": False, "status": "discharged", "ms": 0.0,
+                                       "note": f"{len(uses)} uses of .{u['field']}, all of the allowed shapes; no unsafe in {u['dir']}"})
+            res["functions_under_contract"].append({"item": u["dispatcher"] + " (lock statement), Clone for State, new_nvt_unchecked (field uses)", "file": u["dispatcher_file"], "mode": "syntactic scan"})
     else:
         res["reason"] = "unknown scan kind " + u["kind"]
     res["wall_s"] = time.time() - t0
